@@ -164,8 +164,8 @@ pub open spec fn withdraw_ok(s0: StoreView, info: MessageInfo, batch_id: u64) ->
 }
 pub open spec fn withdraw_payout(s0: StoreView, info: MessageInfo, batch_id: u64) -> nat {
     let b = s0.batches[batch_id];
-    (b.received_native_unstaked->Some_0.0 as nat * s0.requests[(b.id, info.sender.0)].amount.0 as nat)
-        / (b.batch_total_liquid_stake.0 as nat)
+    muldiv(b.received_native_unstaked->Some_0.0 as nat, s0.requests[(b.id, info.sender.0)].amount.0 as nat,
+        b.batch_total_liquid_stake.0 as nat)
 }
 pub open spec fn withdraw_dom(s0: StoreView) -> bool {
     &&& batches_wf(s0)
@@ -175,7 +175,7 @@ pub open spec fn withdraw_dom(s0: StoreView) -> bool {
 verus! {
 // ------------------------------------------------------------------ ReceiveRewards
 pub open spec fn reward_fee(c: Config, amount: nat) -> nat {
-    (c.protocol_fee_config.dao_treasury_fee.0 as nat * amount) / 100000
+    muldiv(c.protocol_fee_config.dao_treasury_fee.0 as nat, amount, 100000)
 }
 pub open spec fn rewards_ok(s0: StoreView, env: Env, info: MessageInfo) -> bool {
     let c = cfg(s0);
@@ -184,7 +184,7 @@ pub open spec fn rewards_ok(s0: StoreView, env: Env, info: MessageInfo) -> bool 
     &&& st(s0).total_liquid_stake_token.0 != 0
     &&& hooks_account(c, c.native_chain_config.reward_collector_address) == Some(info.sender.0@)
     &&& coin is Some
-    &&& reward_fee(c, coin->Some_0.amount.0 as nat) <= coin->Some_0.amount.0
+    &&& reward_fee(c, coin->Some_0.amount.0 as nat) <= coin->Some_0.amount.0   // in particular it fits in 128 bits
     &&& c.protocol_chain_config.ibc_channel_id@.len() > 0
     &&& !s0.waiting.dom().contains(default_sub_id(env) as u64)
 }
@@ -200,12 +200,20 @@ pub open spec fn rewards_state(s0: StoreView, amount: nat) -> State {
 pub open spec fn rewards_dom(s0: StoreView, env: Env, info: MessageInfo) -> bool {
     &&& env_ok(env)
     &&& s0.state is Some ==> state_dom(s0)
-    &&& forall|i: int| 0 <= i < info.funds@.len() ==> (#[trigger] info.funds@[i]).amount.0 <= AMOUNT_MAX()
+    &&& s0.config is Some && s0.state is Some ==> ({
+            let coin = first_coin(info.funds@, cfg(s0).protocol_chain_config.ibc_token_denom@);
+            coin is Some ==> {
+                &&& coin->Some_0.amount.0 <= AMOUNT_MAX()
+                // the exchange rate stays within the DOM range after the payment
+                &&& st(s0).total_native_token.0 + coin->Some_0.amount.0 <= 1000 * st(s0).total_liquid_stake_token.0
+            }
+        })
 }
 /// D12 region: the unvalidated fee rate overflows 128 bits
 pub open spec fn fee_overflow(s0: StoreView, info: MessageInfo) -> bool {
-    s0.config is Some && exists|i: int| 0 <= i < info.funds@.len()
-        && reward_fee(cfg(s0), (#[trigger] info.funds@[i]).amount.0 as nat) > u128::MAX
+    s0.config is Some && ({
+        let coin = first_coin(info.funds@, cfg(s0).protocol_chain_config.ibc_token_denom@);
+        coin is Some && reward_fee(cfg(s0), coin->Some_0.amount.0 as nat) > u128::MAX })
 }
 
 // ------------------------------------------------------------------ ReceiveUnstakedTokens
